@@ -14,9 +14,9 @@ CLAIMED['C08'] = dict(
    ref='DESIGN.md section 5 (C08)',
    note='Trusted: solver stand-in; the twin only sees the current dict, so order-independence and release-restores follow from the comparison.')
 CLAIMED['C17'] = dict(
-   text='Seeded exploration of population-model compositions (all leaf classes, covariate and reduced wrappers, composed models; kinds cycled by run index so every pair meets) under reconfiguration histories (set_n_ids, set_dim_names, set_parameter_names incl. reset, set_covariate_names, fix/release, set_population_parameters, re-composition) followed by compositions on top (LogLikelihood/LogPosterior/PredictiveModel over SBML and toy mechanistic models, HierarchicalLogLikelihood/Posterior, PopulationFilterLogPosterior, PopulationPredictiveModel). After every operation: count = number of names = accepted vector length = gradient length, n_hierarchical_parameters sums to the hierarchical count, IDs mark exactly the individual-level entries, default ID-prefixed names are distinct, composite names are the concatenation of the parts. Sampling, not proof.',
+   text='Seeded exploration of population-model compositions (all leaf classes, covariate and reduced wrappers, composed models; kinds cycled by run index so every pair meets) under reconfiguration histories (set_n_ids, set_dim_names, set_parameter_names incl. reset, set_covariate_names, fix/release, set_population_parameters, re-composition) followed by compositions on top (LogLikelihood/LogPosterior/PredictiveModel over SBML and toy mechanistic models, HierarchicalLogLikelihood/Posterior, PopulationFilterLogPosterior, PopulationPredictiveModel, ProblemModellingController with set_population_model / set_data / set_log_prior / get_log_posterior / get_predictive_model). After every operation: count = number of names = accepted vector length = gradient length, n_hierarchical_parameters sums to the hierarchical count, IDs mark exactly the individual-level entries, default ID-prefixed names are distinct, composite names are the concatenation of the parts. Sampling, not proof.',
    ref='DESIGN.md section 5 (C17)',
-   note='Self-consistency invariants only (no reference formulas). Exceptions count only when they are shape/index/length errors; NotImplementedError and value errors are not this property. Six open known findings (known_findings.json) are avoided by the generator in 80% of runs; the ProblemModellingController is not covered yet.')
+   note='Self-consistency invariants only (no reference formulas). Exceptions count only when they are shape/index/length errors; NotImplementedError and value errors are not this property. Six open known findings (known_findings.json) are avoided by the generator in 80% of runs.')
 CLAIMED['C16'] = dict(
    text='Seeded exploration of interleaved sampling calls on 11 kinds of sampling entry point (4 error models + reduced, all population models, PredictiveModel, PopulationPredictiveModel, Prior/Posterior/PAM predictive models, sample_initial_parameters of the three posteriors, SamplingController(seed)) with integer / Generator / None seeds while the process-global numpy and random generators are perturbed between calls. History oracle: same integer seed => identical result (D1), different seeds => different draws where continuous noise exists (D2), a Generator passed as seed is advanced and is the only source of randomness (D3, twin generator on an untouched replica), no two generators created inside one draw start from the same state and both produce variates, systematically across seeds (D4 i), no two noise cells are perfectly dependent (D4 ii). Sampling, not proof; partial correlation is out of reach.',
    ref='DESIGN.md section 5 (C16)',
